@@ -7,11 +7,18 @@ from . import common
 from . import stft_common as sc
 
 PROP = "C04"
-MODULES = ["PdsVerif.Props.C04"]
+MODULES = ["PdsVerif.Props.StftTie", "PdsVerif.Props.C04"]
 MODEL_MODULES = ["PdsVerif.Model.StftDrv"]
-REQUIRED = ["PdsVerif.C04." + n for n in [
+REQUIRED = ["PdsVerif.StftTie." + n for n in ["full_pad_left_eq", "full_short_eq", "full_num_frames_eq", "full_pad_right_eq", "fin_pad_left_eq", "fin_num_frames_eq", "chunk_frame_length_eq", "chunk_num_frames_eq", "chunk_first_pad_eq", "torch_arith_eq_numpy", "torch_no_frame_eq"]] + ["PdsVerif.C04." + n for n in [
     "obs_equiv", "fresh_after_finalize", "history_independence", "finalize_not_started", "started_spec",
     "guard_full", "guard_fbf", "full_pure", "next_utterance_eq_full"]]
+
+def translate(repo):
+    """framing arithmetic of compute.py / torch.py -> Generated/StftConsts.lean (theorems: Props/StftTie.lean)"""
+    from .translate import stftconsts
+    return stftconsts.generate(repo)
+
+
 RULE = (
     "operation histories over {compute_chunk(n) for n in 0..2L+1, finalize, compute_full(n), frame_by_frame(n,k)} on "
     "one STFT instance (tracer bank, integer window; every style / kaldi_shift, L<=9, S<=L) - random histories up to "
